@@ -1,0 +1,19 @@
+//go:build verif
+
+// Contracts for the govc verifier (see /verif/DESIGN.md). Comment-only file: with the
+// "verif" build tag off it is not compiled; with it on it contains only the package clause.
+
+package service
+
+//@ uf dparse(string) string
+//@ func github.com/opencontainers/go-digest.Parse
+//@   trusted
+//@   ensures err == nil ==> result0 == dparse(s)
+
+// CRI-labels reader: mandatory labels, target digest, and the URL label consulted for the i-th listed digest is urls.<i>
+//@ func sourceFromCRILabels$1
+//@   props C20
+//@   ensures[C20] !(targetRefLabel in labels) ==> err != nil
+//@   ensures[C20] !(targetLayerDigestLabel in labels) ==> err != nil
+//@   ensures[C20] err == nil ==> len(result0) == 1 && result0[0].Target.Digest == dparse(labels[targetLayerDigestLabel])
+//@   assert[C20] after "if urls, ok := labels[targetImageURLsLabelPrefix" : ok ==> urls == labels[targetImageURLsLabelPrefix + sprintf("%d", rangeidx)]
